@@ -541,7 +541,8 @@ class PlaceholderMetadataIsReadOnly(Target):
 # consistently (C09's contracts on the real classes, whose producer shapes include loop instances)
 from pyvc.spec import shared as _shared
 import contracts.C09 as _c09
-REFERENCE_CLASSES = [_shared(_c09.ComponentIdentifierClass(), 'C05'), _shared(_c09.DataReferenceClass(), 'C05')]
+REFERENCE_CLASSES = [_shared(_c09.ComponentIdentifierClass(), 'C05'), _shared(_c09.DataReferenceClass(), 'C05'),
+                     _shared(_c09.CompileReference(), 'C05'), _shared(_c09.ParsePrint(), 'C05')]
 
 TARGETS = REFERENCE_CLASSES + [PlaceholderMetadataIsReadOnly(), RewriteAllReferences(), GetAllLoopedIds(), NextIterationKeepsStoredDocument(), DiscoverPlaceholders(), ComputeDoWhileState(), MapPlaceholder(), LoopedReferencePaths(), RewriteComponents(), InstantiateDoWhile()]
 LEMMAS = []
